@@ -421,17 +421,17 @@ fn run_property(prop: &str, ctx: &mut Ctx) {
                 &[" ", "a", "bc", "é", "你", "\x1b[31m", "\n", "-", "\t"], l(4, 5), option_grid(false), vec![0, 1, 2, 3, 4, 5, 6, 7, 8, 10, 12, 16], l(2, 3), if th { 2_000_000 } else { 60_000 }, props_wrap::c05_shortcut);
         }
         "C06" => {
-            frag_cases(ctx, "C06.first_fit.partition", "lines are non-empty contiguous runs concatenating to the input; empty input -> one empty line", l(4, 5), c06_first_fit, false, vec![DEFAULT_PEN]);
+            frag_cases(ctx, "C06.first_fit.partition", "lines are non-empty contiguous runs concatenating to the input; empty input -> one empty line", l(4, 6), c06_first_fit, false, vec![DEFAULT_PEN]);
             frag_random(ctx, "C06.first_fit.partition.random", "same, arbitrary finite f64", if th { 3_000_000 } else { 60_000 }, 16, true, c06_first_fit, false);
             #[cfg(feature = "full")]
             {
                 frag_cases(ctx, "A6.smawk.call_shape", "assumed contract A6 of smawk::online_column_minima (call arguments and returned table shape)", l(4, 5), a6_smawk_shape, false, vec![DEFAULT_PEN]);
-                frag_cases(ctx, "C06.optimal_fit.partition", "same for optimal-fit", l(4, 5), c06_optimal_fit, false, vec![DEFAULT_PEN, [0, 0, 1, 0, 0]]);
+                frag_cases(ctx, "C06.optimal_fit.partition", "same for optimal-fit", l(4, 6), c06_optimal_fit, false, vec![DEFAULT_PEN, [0, 0, 1, 0, 0]]);
                 frag_random(ctx, "C06.optimal_fit.partition.random", "same, arbitrary finite f64", if th { 3_000_000 } else { 60_000 }, 16, true, c06_optimal_fit, false);
             }
         }
         "C07" => {
-            frag_cases(ctx, "C07.first_fit.greedy", "a new line starts exactly when the line is non-empty and acc + width + penalty > line width", l(4, 5), c07_greedy, false, vec![DEFAULT_PEN]);
+            frag_cases(ctx, "C07.first_fit.greedy", "a new line starts exactly when the line is non-empty and acc + width + penalty > line width", l(4, 6), c07_greedy, false, vec![DEFAULT_PEN]);
             frag_random(ctx, "C07.first_fit.greedy.random", "same, arbitrary finite f64", if th { 3_000_000 } else { 60_000 }, 16, true, c07_greedy, false);
             ctx.wrap_suite("C07.wrap.greedy_text", "ASCII separator, hyphen or no splitter, no force-breaking: wrap == the greedy rule applied to the space-delimited words cut at the splitter's split points",
                 A_WRAP, l(4, 5), first_fit_only(option_grid(true)).into_iter().filter(|o| o.sep == Sep::Ascii && o.spl != Spl::Every2 && !o.break_words).collect(), vec![0, 1, 2, 3, 4, 5, 6, 8], l(3, 3), if th { 2_000_000 } else { 60_000 }, props_wrap::c07_text);
@@ -455,11 +455,11 @@ fn run_property(prop: &str, ctx: &mut Ctx) {
                 |i| Some(StrCase { text: String::new(), n: (i * 256) as usize, aux: String::new() }), props_words::c10_scalar);
             ctx.reports.push(r);
             ctx.strings("C10.display_width.strings", "== sum of widths outside CSI/OSC sequences (well-formed texts); additive; invariant under inserting sequences; <= byte length (all texts)",
-                A_ANSI, l(4, 5), vec![0], vec![""], props_words::c10_strings);
+                A_ANSI, l(4, 6), vec![0], vec![""], props_words::c10_strings);
         }
         "C11" => {
             ctx.strings("C11.find_words.ascii", "lossless; whitespace is spaces; no trailing space in words; width cached; boundaries = space followed by non-space",
-                A_WORDS, l(4, 5), vec![0], vec![""], props_words::c11_ascii);
+                A_WORDS, l(4, 6), vec![0], vec![""], props_words::c11_ascii);
             #[cfg(feature = "full")]
             ctx.strings("C11.find_words.unicode", "lossless ...; boundaries = UAX#14 opportunities of the stripped line minus those after '-'/SHY, none inside a sequence",
                 A_WORDS, l(4, 5), vec![0], vec![""], props_words::c11_unicode);
@@ -469,35 +469,35 @@ fn run_property(prop: &str, ctx: &mut Ctx) {
         }
         "C12" => {
             ctx.strings("C12.split_words", "pieces concatenate; cut exactly at the split points; hyphen penalty exactly when needed; whitespace/penalty on the last piece",
-                &["a", "b", "-", "1", "你", "é", " ", "_"], l(5, 6), vec![0, 1], vec!["None", "Hyphen", "Every2"], props_words::c12_split);
+                &["a", "b", "-", "1", "你", "é", " ", "_"], l(5, 7), vec![0, 1], vec!["None", "Hyphen", "Every2"], props_words::c12_split);
             ctx.strings("C12.break_apart", "pieces concatenate, non-empty, <= limit unless a single wide char, maximal, never inside a sequence, widths cached; pass-through",
-                A_WORD, l(4, 5), vec![0, 1, 2, 3, 5], vec!["", "pen"], props_words::c12_break);
+                A_WORD, l(4, 6), vec![0, 1, 2, 3, 5], vec!["", "pen"], props_words::c12_break);
         }
         "C13" => {
             colour_cases(ctx, l(3, 4));
         }
         "C14" => {
             let grid: Vec<Opts> = option_grid(false).into_iter().filter(|o| o.initial.is_empty() && o.subsequent.is_empty()).collect();
-            ctx.wrap_suite("C14.fill.idempotent", "fill(fill(t)) == fill(t) under the stated conditions", A_WRAP, l(4, 5), grid, vec![1, 2, 3, 4, 5, 6, 8, 12], l(2, 3), if th { 2_000_000 } else { 60_000 }, props_wrap::c14_idempotent);
+            ctx.wrap_suite("C14.fill.idempotent", "fill(fill(t)) == fill(t) under the stated conditions", A_WRAP, l(4, 6), grid, vec![1, 2, 3, 4, 5, 6, 8, 12], l(2, 3), if th { 2_000_000 } else { 60_000 }, props_wrap::c14_idempotent);
         }
         "C15" => {
-            ctx.strings("C15.unfill.structural", "indents are prefixes made of prefix characters; no interior line break; line-ending detection", A_UNFILL, l(5, 6), vec![0], vec![""], c15_structural);
-            refill_cases(ctx, "C15.unfill.roundtrip", "unfill(fill(paragraph)) recovers text, indents, width and line ending", l(3, 4), c15_roundtrip);
+            ctx.strings("C15.unfill.structural", "indents are prefixes made of prefix characters; no interior line break; line-ending detection", A_UNFILL, l(5, 7), vec![0], vec![""], c15_structural);
+            refill_cases(ctx, "C15.unfill.roundtrip", "unfill(fill(paragraph)) recovers text, indents, width and line ending", l(3, 5), c15_roundtrip);
         }
         "C16" => {
-            refill_cases(ctx, "C16.refill", "refill(fill(t, o1), o2) == fill(t, o2 with o1's indents)", l(3, 4), c16_refill);
+            refill_cases(ctx, "C16.refill", "refill(fill(t, o1), o2) == fill(t, o2 with o1's indents)", l(3, 5), c16_refill);
         }
         "C17" => {
             ctx.strings("C17.fill_inplace", "same length; only ' ' -> '\\n'; lines == wrap with the documented options", A_INPLACE, l(5, 6), vec![0, 1, 2, 3, 4, 6, 9], vec![""], props_wrap::c17_inplace);
         }
         "C18" => {
-            ctx.strings("C18.dedent", "removes exactly the longest common whitespace margin; idempotent; dedent(indent(s,p)) == dedent(s)", A_DEDENT, l(7, 8), vec![0], vec![""], c18_dedent);
+            ctx.strings("C18.dedent", "removes exactly the longest common whitespace margin; idempotent; dedent(indent(s,p)) == dedent(s)", A_DEDENT, l(7, 9), vec![0], vec![""], c18_dedent);
         }
         "C19" => {
-            ctx.strings("C19.indent", "every line prefixed (trimmed prefix on blank lines); newline structure kept; indent(s,\"\") == s", A_INDENT, l(6, 7), vec![0], vec!["", "  ", "> ", "\t", "// "], c19_indent);
+            ctx.strings("C19.indent", "every line prefixed (trimmed prefix on blank lines); newline structure kept; indent(s,\"\") == s", A_INDENT, l(6, 8), vec![0], vec!["", "  ", "> ", "\t", "// "], c19_indent);
         }
         "C20" => {
-            col_cases(ctx, l(4, 5));
+            col_cases(ctx, l(4, 6));
         }
         _ => {}
     }
